@@ -241,6 +241,8 @@ def r3(run):
             continue
         if c.fn in ("cacache::put::Writer::commit", "cacache::put::SyncWriter::commit", "cacache::put::WriteOpts::new"):
             continue
+        if c.fn in ("cacache::get::Reader::check", "cacache::get::SyncReader::check"):
+            continue      # a method of a reader that was opened on a directory already: it takes none
         n += 1
         strs = []
         for a in c.arg_exprs():
@@ -259,7 +261,13 @@ def copy_loops(run):
             continue
         for c in b.calls():
             if c.bb in b.live_blocks() and c.fn in ("std::io::Read::read", "tokio::io::util::async_read_ext::AsyncReadExt::read") and q.reaches(b, c.bb, c.bb):
-                out.append((b, c))
+                # a loop that only reads (hash verification of stored content) copies nothing: the obligations are about loops
+                # whose bytes end up in a CAS writer
+                writes_somewhere = any(cc.bb in b.live_blocks() and (cc.fn.endswith(("write_all", "AsyncWriteExt::write", "io::Write::write")) or cc.fn in COMMITS or
+                                                                        (cc.local and any("cacache::put::" in b.local_tystr(l) for l in [q.root_local(b, a) for a in cc.args] if l is not None)))
+                                       for cc in b.calls())
+                if writes_somewhere:
+                    out.append((b, c))
     return out
 
 
